@@ -385,7 +385,7 @@ def oneArgF : Nat → Nat → List LTok → AM (List LTok)
     | some t@⟨.sym "BraceOpen", _⟩ =>
       oneArgF f (depth + 1) (if depth > 0 then toks ++ [t] else toks)
     | some t@⟨.sym "BraceClose", loc⟩ =>
-      if depth = 0 then fail (.crash "brace_depth -= 1 underflow") loc
+      if depth = 0 then fail .unexpected loc
       else if depth = 1 then pure toks
       else oneArgF f (depth - 1) (toks ++ [t])
     | some t =>
@@ -413,7 +413,7 @@ def stringLoopF : Nat → Nat → String → AM String
     | some ⟨.comment, _⟩ => again f depth acc
     | some ⟨.sym "BraceOpen", _⟩ => again f (depth + 1) (if depth > 0 then acc ++ "{" else acc)
     | some ⟨.sym "BraceClose", loc⟩ =>
-      if depth = 0 then fail (.crash "brace_depth -= 1 underflow") loc
+      if depth = 0 then fail .unexpected loc
       else if depth = 1 then pure acc
       else again f (depth - 1) (acc ++ "}")
     | some t =>
@@ -518,7 +518,7 @@ def eachItemsF : Nat → Nat → List LTok → AM (List LTok)
     | some ⟨.comment, _⟩ => again f depth acc
     | some t@⟨.sym "BraceOpen", _⟩ => again f (depth + 1) (if depth > 0 then acc ++ [t] else acc)
     | some t@⟨.sym "BraceClose", loc⟩ =>
-      if depth = 0 then fail (.crash "brace_depth -= 1 underflow") loc
+      if depth = 0 then fail .unexpected loc
       else if depth = 1 then pure acc
       else again f (depth - 1) (acc ++ [t])
     | some t => again f depth (acc ++ [t])
